@@ -441,7 +441,7 @@ def plan_jobs(cases, tier, seed=0):
         sas = coords.signatures(na)
         sbs = coords.signatures(nb) if nb else [None]
         combos = [(a, b) for a in sas for b in sbs]
-        k = 2 if tier == "quick" else min(len(combos), 24)
+        k = (4 if nb else 2) if tier == "quick" else min(len(combos), 24)      # two-operand lookups are keyed by both operands' types
         if op == "rotate_euler" and tier == "quick":
             k = 1
         h = hsh(op, na, nb, fixed, seed)
